@@ -1,0 +1,325 @@
+//! Verification hooks for the byte-wise automaton.
+//!
+//! This module only exists under `--cfg daachorse_verif`. It adds no behaviour: it names private
+//! items so that an external checker can build an automaton from raw table words, read the
+//! tables back, and call the crate's own transition functions on an arbitrary state.
+
+use core::num::NonZeroU32;
+
+use alloc::vec::Vec;
+
+use super::iter::{FindOverlappingIterator, FindOverlappingNoSuffixIterator};
+use super::{DoubleArrayAhoCorasick, State};
+use crate::intpack::U24nU8;
+use crate::serializer::{Serializable, SerializableVec};
+use crate::{MatchKind, Output};
+
+/// Transparent wrapper of the private `State`.
+#[derive(Clone, Copy, PartialEq, Eq)]
+#[repr(transparent)]
+pub struct VState(State);
+
+/// Transparent wrapper of the private `Output`.
+#[derive(Clone, Copy, PartialEq, Eq)]
+#[repr(transparent)]
+pub struct VOutput<V>(Output<V>);
+
+/// Transparent wrapper of the private `U24nU8`.
+#[derive(Clone, Copy, PartialEq, Eq)]
+#[repr(transparent)]
+pub struct VPacked(U24nU8);
+
+pub const fn state(base: u32, fail: u32, opos_ch: u32) -> VState {
+    VState(State {
+        base: NonZeroU32::new(base),
+        fail,
+        opos_ch: U24nU8::verif_from_u32(opos_ch),
+    })
+}
+
+pub const fn output<V: Copy>(value: V, length: u32, parent: u32) -> VOutput<V> {
+    VOutput(Output {
+        value,
+        length,
+        parent: NonZeroU32::new(parent),
+    })
+}
+
+fn cast<A, B>(v: Vec<A>) -> Vec<B> {
+    debug_assert!(core::mem::size_of::<A>() == core::mem::size_of::<B>());
+    debug_assert!(core::mem::align_of::<A>() == core::mem::align_of::<B>());
+    let mut v = core::mem::ManuallyDrop::new(v);
+    unsafe { Vec::from_raw_parts(v.as_mut_ptr().cast::<B>(), v.len(), v.capacity()) }
+}
+
+pub fn from_raw<V>(
+    states: Vec<VState>,
+    outputs: Vec<VOutput<V>>,
+    match_kind: MatchKind,
+    num_states: u32,
+) -> DoubleArrayAhoCorasick<V> {
+    DoubleArrayAhoCorasick {
+        states: cast(states),
+        outputs: cast(outputs),
+        match_kind,
+        num_states,
+    }
+}
+
+/// Raw copy of the tables: per state `[base, fail, opos_ch]`, per output
+/// `(value, length, parent)`, the match kind and the state counter.
+#[allow(clippy::type_complexity)]
+pub fn raw<V: Copy>(
+    pma: &DoubleArrayAhoCorasick<V>,
+) -> (Vec<[u32; 3]>, Vec<(V, u32, u32)>, MatchKind, u32) {
+    (
+        pma.states
+            .iter()
+            .map(|s| state_words(&VState(*s)))
+            .collect(),
+        pma.outputs
+            .iter()
+            .map(|o| output_fields(&VOutput(*o)))
+            .collect(),
+        pma.match_kind,
+        pma.num_states,
+    )
+}
+
+pub fn num_slots<V>(pma: &DoubleArrayAhoCorasick<V>) -> usize {
+    pma.states.len()
+}
+
+pub fn num_outputs<V>(pma: &DoubleArrayAhoCorasick<V>) -> usize {
+    pma.outputs.len()
+}
+
+pub fn match_kind<V>(pma: &DoubleArrayAhoCorasick<V>) -> MatchKind {
+    pma.match_kind
+}
+
+pub fn slot<V>(pma: &DoubleArrayAhoCorasick<V>, i: usize) -> VState {
+    VState(pma.states[i])
+}
+
+pub fn out<V: Copy>(pma: &DoubleArrayAhoCorasick<V>, i: usize) -> VOutput<V> {
+    VOutput(pma.outputs[i])
+}
+
+/// # Safety
+///
+/// Same contract as the private function it forwards to.
+pub unsafe fn child<V>(pma: &DoubleArrayAhoCorasick<V>, s: u32, c: u8) -> Option<u32> {
+    pma.child_index_unchecked(s, c)
+}
+
+/// # Safety
+///
+/// Same contract as the private function it forwards to.
+pub unsafe fn next_state<V>(pma: &DoubleArrayAhoCorasick<V>, s: u32, c: u8) -> u32 {
+    pma.next_state_id_unchecked(s, c)
+}
+
+/// # Safety
+///
+/// Same contract as the private function it forwards to.
+pub unsafe fn next_state_leftmost<V>(pma: &DoubleArrayAhoCorasick<V>, s: u32, c: u8) -> u32 {
+    pma.next_state_id_leftmost_unchecked(s, c)
+}
+
+pub fn state_words(s: &VState) -> [u32; 3] {
+    [
+        s.0.base.map_or(0, NonZeroU32::get),
+        s.0.fail,
+        s.0.opos_ch.verif_to_u32(),
+    ]
+}
+
+/// `(base, check, fail, output_pos)` through the real accessors.
+pub fn state_fields(s: &VState) -> (u32, u8, u32, u32) {
+    (
+        s.0.base().map_or(0, NonZeroU32::get),
+        s.0.check(),
+        s.0.fail(),
+        s.0.output_pos().map_or(0, NonZeroU32::get),
+    )
+}
+
+/// `(value, length, parent)` through the real accessors.
+pub fn output_fields<V: Copy>(o: &VOutput<V>) -> (V, u32, u32) {
+    (
+        o.0.value(),
+        o.0.length(),
+        o.0.parent().map_or(0, NonZeroU32::get),
+    )
+}
+
+pub fn overlapping_at<P: Iterator<Item = u8>, V>(
+    pma: &DoubleArrayAhoCorasick<V>,
+    haystack: P,
+    state_id: u32,
+    pos: usize,
+    output_pos: u32,
+) -> FindOverlappingIterator<'_, P, V> {
+    FindOverlappingIterator {
+        pma,
+        haystack: haystack.enumerate(),
+        state_id,
+        pos,
+        output_pos: NonZeroU32::new(output_pos),
+    }
+}
+
+pub fn overlapping_state<P, V>(it: &FindOverlappingIterator<'_, P, V>) -> (u32, usize, u32) {
+    (
+        it.state_id,
+        it.pos,
+        it.output_pos.map_or(0, NonZeroU32::get),
+    )
+}
+
+pub fn no_suffix_at<P: Iterator<Item = u8>, V>(
+    pma: &DoubleArrayAhoCorasick<V>,
+    haystack: P,
+    state_id: u32,
+) -> FindOverlappingNoSuffixIterator<'_, P, V> {
+    FindOverlappingNoSuffixIterator {
+        pma,
+        haystack: haystack.enumerate(),
+        state_id,
+    }
+}
+
+pub fn no_suffix_state<P, V>(it: &FindOverlappingNoSuffixIterator<'_, P, V>) -> u32 {
+    it.state_id
+}
+
+pub fn leftmost_pos<P: AsRef<[u8]>, V>(it: &super::iter::LestmostFindIterator<'_, P, V>) -> usize {
+    it.pos
+}
+
+// Serialization of the private component types.
+
+pub fn packed(x: u32) -> VPacked {
+    VPacked(U24nU8::verif_from_u32(x))
+}
+
+pub fn packed_word(p: &VPacked) -> u32 {
+    p.0.verif_to_u32()
+}
+
+/// `(a, b)` through the real accessors.
+pub fn packed_get(p: &VPacked) -> (u32, u8) {
+    (p.0.a().get(), p.0.b())
+}
+
+/// `set_a` through the real mutator; `a` must fit in 24 bits (returns false otherwise).
+pub fn packed_set_a(p: &mut VPacked, a: u32) -> bool {
+    match crate::intpack::U24::try_from(a) {
+        Ok(a) => {
+            p.0.set_a(a);
+            true
+        }
+        Err(_) => false,
+    }
+}
+
+pub fn packed_set_b(p: &mut VPacked, b: u8) {
+    p.0.set_b(b);
+}
+
+pub fn packed_serialize(p: &VPacked, dst: &mut Vec<u8>) {
+    p.0.serialize_to_vec(dst);
+}
+
+pub fn packed_deserialize(src: &[u8]) -> (VPacked, &[u8]) {
+    let (p, rest) = U24nU8::deserialize_from_slice(src);
+    (VPacked(p), rest)
+}
+
+pub fn packed_serialized_bytes() -> usize {
+    U24nU8::serialized_bytes()
+}
+
+pub fn state_serialize(s: &VState, dst: &mut Vec<u8>) {
+    s.0.serialize_to_vec(dst);
+}
+
+pub fn state_deserialize(src: &[u8]) -> (VState, &[u8]) {
+    let (s, rest) = State::deserialize_from_slice(src);
+    (VState(s), rest)
+}
+
+pub fn state_serialized_bytes() -> usize {
+    State::serialized_bytes()
+}
+
+/// `set_*` through the real mutators on a default state; `None` if `set_output_pos` fails.
+pub fn state_via_setters(base: u32, check: u8, fail: u32, output_pos: u32) -> Option<VState> {
+    let mut s = State::default();
+    if let Some(b) = NonZeroU32::new(base) {
+        s.set_base(b);
+    }
+    s.set_check(check);
+    s.set_fail(fail);
+    s.set_output_pos(NonZeroU32::new(output_pos)).ok()?;
+    Some(VState(s))
+}
+
+pub fn output_serialize<V: Serializable>(o: &VOutput<V>, dst: &mut Vec<u8>) {
+    o.0.serialize_to_vec(dst);
+}
+
+pub fn output_deserialize<V: Serializable>(src: &[u8]) -> (VOutput<V>, &[u8]) {
+    let (o, rest) = Output::<V>::deserialize_from_slice(src);
+    (VOutput(o), rest)
+}
+
+pub fn output_serialized_bytes<V: Serializable>() -> usize {
+    Output::<V>::serialized_bytes()
+}
+
+pub fn states_serialize(v: Vec<VState>, dst: &mut Vec<u8>) -> (Vec<VState>, usize) {
+    let v: Vec<State> = cast(v);
+    v.serialize_to_vec(dst);
+    let n = v.serialized_bytes();
+    (cast(v), n)
+}
+
+pub fn states_deserialize(src: &[u8]) -> (Vec<VState>, &[u8]) {
+    let (v, rest) = Vec::<State>::deserialize_from_slice(src);
+    (cast(v), rest)
+}
+
+pub fn outputs_serialize<V: Serializable>(
+    v: Vec<VOutput<V>>,
+    dst: &mut Vec<u8>,
+) -> (Vec<VOutput<V>>, usize) {
+    let v: Vec<Output<V>> = cast(v);
+    v.serialize_to_vec(dst);
+    let n = v.serialized_bytes();
+    (cast(v), n)
+}
+
+pub fn outputs_deserialize<V: Serializable>(src: &[u8]) -> (Vec<VOutput<V>>, &[u8]) {
+    let (v, rest) = Vec::<Output<V>>::deserialize_from_slice(src);
+    (cast(v), rest)
+}
+
+pub fn vec_u32_serialize(v: &Vec<u32>, dst: &mut Vec<u8>) -> usize {
+    v.serialize_to_vec(dst);
+    v.serialized_bytes()
+}
+
+pub fn vec_u32_deserialize(src: &[u8]) -> (Vec<u32>, &[u8]) {
+    Vec::<u32>::deserialize_from_slice(src)
+}
+
+pub fn opt_nz_serialize(x: u32, dst: &mut Vec<u8>) {
+    NonZeroU32::new(x).serialize_to_vec(dst);
+}
+
+pub fn opt_nz_deserialize(src: &[u8]) -> (u32, &[u8]) {
+    let (x, rest) = Option::<NonZeroU32>::deserialize_from_slice(src);
+    (x.map_or(0, NonZeroU32::get), rest)
+}
